@@ -621,22 +621,19 @@ impl<'a> UserModel<'a> {
     /// See also:
     /// * [Model::delete_sheet]
     pub fn delete_sheet(&mut self, sheet: u32) -> Result<(), String> {
-        let worksheet = self.model.workbook.worksheet(sheet)?;
-
-        self.push_diff_list(vec![Diff::DeleteSheet {
-            sheet,
-            old_data: Box::new(worksheet.clone()),
-        }]);
-
+        let old_data = Box::new(self.model.workbook.worksheet(sheet)?.clone());
         let sheet_count = self.model.workbook.worksheets.len() as u32;
-        // If we are deleting the last sheet we need to change the selected sheet
+
+        self.model.delete_sheet(sheet)?;
+
+        // If we deleted the last sheet we need to change the selected sheet
         if sheet == sheet_count - 1 && sheet_count > 1 {
             if let Some(view) = self.model.workbook.views.get_mut(&self.model.view_id) {
                 view.sheet = sheet_count - 2;
             };
         }
 
-        self.model.delete_sheet(sheet)?;
+        self.push_diff_list(vec![Diff::DeleteSheet { sheet, old_data }]);
         Ok(())
     }
 
